@@ -42,7 +42,7 @@ KwAt(inp, f, e) ==
   \/ \E k \in 1..Len(KwTable) :
         LET n == Len(KwTable[k]) IN
         /\ f + n - 1 <= e /\ Text(inp, f, f + n - 1) = KwTable[k]
-        /\ (f + n > e \/ ByteAt(inp, f + n) \in {32, 9, 10, 13, 47})
+        /\ (f + n > e \/ ByteAt(inp, f + n) \in {32, 9, 10, 13, 47, 35})
   \/ /\ f + 2 <= e /\ ByteAt(inp, f) >= 49 /\ ByteAt(inp, f) <= 53 /\ Digit(ByteAt(inp, f + 1)) /\ Digit(ByteAt(inp, f + 2))
      /\ (f + 3 > e \/ ByteAt(inp, f + 3) \in {32, 9, 10, 13})
 BareTextsEndAtDirectives(r) ==
